@@ -62,6 +62,10 @@ func opts(tab *hpx.Table, s hx.M) []api.EntryOption {
 	if m := tab.Atts(s["atts"]); m != nil {
 		o = append(o, api.WithAttachments(m))
 	}
+	// an entry occupies exactly ONE unit of its value whatever its batch count: scenarios vary it
+	if b := hx.Int(s, "b"); b > 1 {
+		o = append(o, api.WithBatchCount(uint32(b)))
+	}
 	return o
 }
 
